@@ -69,7 +69,9 @@ func posStr(ok bool, it *veriftreap.Iterator) string {
 	if ok {
 		s = "1:"
 	}
-	if !it.Valid() {
+	// The position after an unsuccessful move is not observed: First/Last on an
+	// empty treap without range keys leave the previous node in place.
+	if !ok || !it.Valid() {
 		return s + "~"
 	}
 	return s + hx(it.Key()) + "=" + hx(it.Value())
